@@ -16,7 +16,7 @@ META = {
     "rule": ("case = one shot (list of [tag, value]) or one multi-shot result with strict flags; "
              "distinct by JSON; non-trivial when some register is written >= 2 times with >= 1 "
              "indexed write (shots), or when shots differ in register sets/lengths (results)"),
-    "required": ["monitor:shot-bits", "monitor:bitstrings", "monitor:counts", "monitor:collated",
+    "required": ["monitor:shot-bits", "monitor:shot-object-reused", "monitor:bitstrings", "monitor:counts", "monitor:collated",
                  "expect:ValueError", "expect:value"],
     "reach": ["hugr.qsystem.result:QsysShot.to_register_bits",
               "hugr.qsystem.result:QsysResult.register_bitstrings",
@@ -140,6 +140,26 @@ def check_shot(ctx, entries, stratum="shot"):
     obs2 = outcome(sh.to_register_bits)
     if obs2 != obs:
         ctx.disc(None, "append-vs-ctor", "shot", obs, obs2, stratum=stratum, case=entries)
+    # the SAME shot object asked again after its entries changed (same number of entries), and after the caller
+    # edited the dict it got back: every answer is a replay of the entries the shot holds NOW
+    if ents:
+        ctx.count("monitor:shot-object-reused")
+        if obs2[0] == "value":
+            obs2[1]["zz_caller_edit"] = "x"
+            for k in list(obs2[1]):
+                obs2[1][k] = obs2[1][k] + "1"
+        changed = list(reversed(ents)) if len(ents) > 1 else [(ents[0][0], 2)]
+        sh.entries[:] = changed
+        want3 = outcome(lambda: model_bits(changed))
+        got3 = outcome(sh.to_register_bits)
+        if got3 != want3:
+            ctx.disc(None, "shot-object-reused", "entries replaced in place, converted again", want3, got3,
+                     stratum=stratum, case=entries)
+        sh.entries[:] = ents
+        got4 = outcome(sh.to_register_bits)
+        if got4 != exp:
+            ctx.disc(None, "shot-object-reused", "entries restored, converted again", exp, got4,
+                     stratum=stratum, case=entries)
 
 
 def gen_result(r):
